@@ -337,8 +337,10 @@ type crigRig struct {
 	uni       []kit.Bits
 	pfxs      []*bnet.Prefix
 	routerID  uint32
-	localASNs []uint32
-	clusters  []uint32
+	localASNs []uint32 // currently contributing ASNs of the VRF (model, sorted)
+	clusters  []uint32 // currently contributing cluster IDs of the VRF (model, sorted)
+	asnRef    map[uint32]int
+	clRef     map[uint32]int
 	sessions  []*crigSession
 	serial    int
 	anns      map[int]crigAnn // by serial (for tag tracing)
@@ -349,22 +351,75 @@ const (
 	crigLocalASN  = 65000
 	crigLocalASN2 = 65010 // contributed by another (notional) session of the VRF with a different local AS
 	crigClusterID = 0x0a0a0ac1
+	// contributed by another (notional) route reflector client session of the VRF with its own cluster ID
+	crigClusterID2 = 0x0a0a0ad0
 )
 
+// Values other (notional) sessions of the VRF contribute and withdraw during a
+// history (fsmAddressFamily.init / dispose). They never occur as "foreign"
+// values in generated announcements, so a later contribution cannot make an
+// already stored announcement ineligible in hindsight.
+var crigExtraASNs = []uint32{65020, 65030, 65040}
+var crigExtraClusters = []uint32{0x0a0a0ad1, 0x0a0a0ad2}
+
 func crigNewRig(uni []kit.Bits, caseTag uint32) *crigRig {
-	r := &crigRig{caseTag: caseTag, uni: uni, routerID: crigRouterID, anns: map[int]crigAnn{}}
+	r := &crigRig{caseTag: caseTag, uni: uni, routerID: crigRouterID, anns: map[int]crigAnn{}, asnRef: map[uint32]int{}, clRef: map[uint32]int{}}
 	r.vrf = vrf.NewUntrackedVRF("crig", 0)
 	r.rib = locRIB.New("crig.inet")
 	for _, b := range uni {
 		r.pfxs = append(r.pfxs, crigPfxFromBits(b))
 	}
 	// what fsmAddressFamily.init does for every session of the VRF
-	r.localASNs = []uint32{crigLocalASN, crigLocalASN2}
-	r.clusters = []uint32{crigClusterID}
-	r.vrf.AddContributingASN(crigLocalASN)
-	r.vrf.AddContributingASN(crigLocalASN2)
-	r.vrf.AddContributingClusterID(crigClusterID)
+	r.vrfAddASN(crigLocalASN)
+	r.vrfAddASN(crigLocalASN2)
+	r.vrfAddCluster(crigClusterID)
+	r.vrfAddCluster(crigClusterID2)
 	return r
+}
+
+func crigSortedKeys(m map[uint32]int) []uint32 {
+	var out []uint32
+	for k, n := range m {
+		if n > 0 {
+			out = append(out, k)
+		}
+	}
+	sort.Slice(out, func(i, j int) bool { return out[i] < out[j] })
+	return out
+}
+
+// vrfAddASN / vrfDelASN / vrfAddCluster / vrfDelCluster: a session of the VRF
+// comes up / goes down (reference counted, as vrf.VRF does it).
+func (r *crigRig) vrfAddASN(a uint32) {
+	r.vrf.AddContributingASN(a)
+	r.asnRef[a]++
+	r.localASNs = crigSortedKeys(r.asnRef)
+}
+
+func (r *crigRig) vrfDelASN(a uint32) bool {
+	if r.asnRef[a] == 0 {
+		return false
+	}
+	r.vrf.RemoveContributingASN(a)
+	r.asnRef[a]--
+	r.localASNs = crigSortedKeys(r.asnRef)
+	return true
+}
+
+func (r *crigRig) vrfAddCluster(c uint32) {
+	r.vrf.AddContributingClusterID(c)
+	r.clRef[c]++
+	r.clusters = crigSortedKeys(r.clRef)
+}
+
+func (r *crigRig) vrfDelCluster(c uint32) bool {
+	if r.clRef[c] == 0 {
+		return false
+	}
+	r.vrf.RemoveContributingClusterID(c)
+	r.clRef[c]--
+	r.clusters = crigSortedKeys(r.clRef)
+	return true
 }
 
 type crigSessionSpec struct {
@@ -375,6 +430,7 @@ type crigSessionSpec struct {
 	RoleAdv    bool
 	RoleRemote uint8
 	Policy     crigPolicy
+	NonClient  bool // iBGP session that is not a route reflector client (cluster ID 0, as peer.go leaves it)
 }
 
 func (r *crigRig) addSession(idx int, spec crigSessionSpec) *crigSession {
@@ -400,8 +456,8 @@ func (r *crigRig) addSession(idx int, spec crigSessionSpec) *crigSession {
 			IBGP:                   spec.IBGP,
 			LocalASN:               crigLocalASN,
 			PeerASN:                peerASN,
-			RouteReflectorClient:   spec.IBGP,
-			ClusterID:              crigClusterID,
+			RouteReflectorClient:   spec.IBGP && !spec.NonClient,
+			ClusterID:              crigSessionClusterID(spec),
 			AddPathRX:              spec.AddPathRX,
 			PeerRoleEnabled:        spec.RoleOn,
 			PeerRoleAdvByPeer:      spec.RoleAdv,
@@ -413,6 +469,13 @@ func (r *crigRig) addSession(idx int, spec crigSessionSpec) *crigSession {
 	s.in = adjRIBIn.New(spec.Policy.chain(), r.vrf, s.sa)
 	r.sessions = append(r.sessions, s)
 	return s
+}
+
+func crigSessionClusterID(spec crigSessionSpec) uint32 {
+	if spec.IBGP && !spec.NonClient {
+		return crigClusterID
+	}
+	return 0
 }
 
 func (s *crigSession) String() string {
@@ -741,7 +804,7 @@ func (r *crigRig) genAttrs(t *rapid.T, s *crigSession, o crigGenOpts) crigAttrs 
 			}
 			cl := append([]uint32{}, a.ClusterList...)
 			pos := rapid.IntRange(0, len(cl)).Draw(t, "cl_pos")
-			cl = append(cl[:pos:pos], append([]uint32{r.clusters[0]}, cl[pos:]...)...)
+			cl = append(cl[:pos:pos], append([]uint32{rapid.SampledFrom(r.clusters).Draw(t, "own_cluster")}, cl[pos:]...)...)
 			a.ClusterList = cl
 		case 3:
 			if !s.sa.IBGP {
